@@ -7,7 +7,7 @@ Line-protocol driver for the C04 model (`lake build c04drv`).
       (0/1 flags, hex window)
   new <node>
   store <node> n=.. h=.. p=.. v=.. bl=.. pay=.. [tx=hash:msg|-]* [dep=a:c]* [rep=a:c]* [non=a:n]*
-        [sto=a:k:v]* [d0=c]* [d1=c:casm]* [mig=c:casm]* [cls=c:s|c:v2]*
+        [sto=a:k:v]* [d0=c]* [d1=c:casm]* [mig=c:casm]* [cls=c:s|c|n:v2]*   (n = Sierra class without a usable compiled class)
       -> "ok <root-id>" | "err:<Err>"      (roots are computed as Finalise does; the id numbers
                                              distinct roots in order of first appearance)
   storewrongroot <node> <same tokens>      -> the same block with a wrong new state root: "err:rootNew" expected
@@ -106,8 +106,9 @@ def addToken (b : Block) (tok : String) : Option Block :=
       | [c, kind, v2] =>
         match hexToNat? c, hexToNat? v2 with
         | some c, some v2 =>
-          if kind == "s" then some { b with classes := Map.set b.classes c ⟨true, v2⟩ }
-          else if kind == "c" then some { b with classes := Map.set b.classes c ⟨false, v2⟩ }
+          if kind == "s" then some { b with classes := Map.set b.classes c ⟨true, v2, true⟩ }
+          else if kind == "n" then some { b with classes := Map.set b.classes c ⟨true, v2, false⟩ }
+          else if kind == "c" then some { b with classes := Map.set b.classes c ⟨false, v2, true⟩ }
           else none
         | _, _ => none
       | _ => none
